@@ -371,7 +371,7 @@ func runEncode(c *hk.Ctx) {
 		c.Emit(op("enc.resource", "v", s), out, true, "enc.resource")
 	}
 	// descriptors: the list as handleListTools builds it
-	tools := fixedTools()
+	tools := append(fixedTools(), keywordTools()...)
 	var specs []any
 	var vals []mcp.Tool
 	for _, t := range tools {
